@@ -176,7 +176,7 @@ example :
     definition** (`varMatches`: same name, data type and evented flag; typed minimum, maximum —
     each possibly absent, one-sided ranges included — and default equal; allowed values equal as a
     set of typed values), for every well-formed definition (`VarWF`: blank-free name, supported type,
-    texts that coerce to values which survive `str()` and the type's `in` coercer — automatic for the
+    texts that coerce to values which survive the type's `out` and `in` coercers — automatic for the
     integer, string and boolean families, see `rtok_modelled`). -/
 theorem client_sees_variable (fs : Facts) (vd : VarDef) (h : VarWF fs vd) :
     parseVar (serializeVar fs vd) = some (clientVarOf fs vd)
